@@ -196,7 +196,12 @@ class BTreeV:
         self.length = 0
 
     def cmp(self, it, a_loc, b_loc):
-        """real Ord::cmp from MIR on two key locations -> -1/0/1"""
+        """real Ord::cmp from MIR on two key locations -> -1/0/1 (integer keys: the built-in order)"""
+        x, y = a_loc[0][a_loc[1]], b_loc[0][b_loc[1]]
+        if (isinstance(x, int) or is_sym(x)) and (isinstance(y, int) or is_sym(y)):
+            if is_sym(x) or is_sym(y):
+                return it.choose([x < y, x == y, x > y], 'btree_int_cmp') - 1
+            return -1 if x < y else (0 if x == y else 1)
         a = Ref(a_loc[0], a_loc[1])
         b = Ref(b_loc[0], b_loc[1])
         r = it.models.call_trait_method(it, 'cmp', [a, b])
@@ -294,6 +299,24 @@ class BTreeV:
             newroot.edges = [node, right]
             self.root = newroot
             return None
+
+    def locs(self):
+        """in-order (keys list, index, vals list) locations"""
+        out = []
+
+        def walk(n):
+            if n is None:
+                return
+            if n.edges is None:
+                for i in range(len(n.keys)):
+                    out.append((n.keys, i, n.vals))
+            else:
+                for i in range(len(n.keys)):
+                    walk(n.edges[i])
+                    out.append((n.keys, i, n.vals))
+                walk(n.edges[len(n.keys)])
+        walk(self.root)
+        return out
 
     def items(self):
         out = []
@@ -413,6 +436,16 @@ class Models:
                 if h:
                     self.called[key] = self.called.get(key, 0) + 1
                     return h(it, ci, args, dest_ty)
+            if tb == 'DoubleEndedIterator' and name in ('next_back',):
+                tgt = deref(args[0])
+                if type(tgt) is Opaque and hasattr(tgt.data, 'next_back'):
+                    return opt_of(tgt.data.next_back())
+                if type(tgt) is Opaque and isinstance(tgt.data, PyIter):
+                    pi = tgt.data
+                    if pi.pos < len(pi.items):
+                        return some(pi.items.pop())
+                    return none()
+                raise Inconclusive('next_back on %r' % (tgt,))
             if tb == 'Clone' and name == 'clone':
                 self.called['Clone::clone'] = self.called.get('Clone::clone', 0) + 1
                 return deep_clone(deref(args[0]))
@@ -1178,6 +1211,97 @@ def _(it, ci, a, d):
     if r is None:
         return none()
     return some(Ref(r[0], r[1]))
+
+
+class DequeIter:
+    def __init__(self, items):
+        self.items = list(items)
+
+    def next(self):
+        return self.items.pop(0) if self.items else None
+
+    def next_back(self):
+        return self.items.pop() if self.items else None
+
+
+@model('BTreeMap::range', 'BTreeMap::range_mut')
+def _(it, ci, a, d):
+    bt = deref(a[0]).data
+    rg = a[1]
+    lo = hi = None
+    lo_incl = hi_incl = True
+    if type(rg) is Struct:
+        if rg.ty == 'Range':
+            lo, hi, hi_incl = rg.fields[0], rg.fields[1], False
+        elif rg.ty == 'RangeTo':
+            hi, hi_incl = rg.fields[0], False
+        elif rg.ty == 'RangeToInclusive':
+            hi = rg.fields[0]
+        elif rg.ty == 'RangeFrom':
+            lo = rg.fields[0]
+        elif rg.ty == 'RangeInclusive':
+            lo, hi = rg.fields[0], rg.fields[1]
+        elif rg.ty == 'RangeFull':
+            pass
+        else:
+            raise Inconclusive('BTreeMap::range with %s' % rg.ty)
+    else:
+        raise Inconclusive('BTreeMap::range bounds %r' % (rg,))
+    out = []
+    for node_keys, i, vals in bt.locs():
+        k = node_keys[i]
+        inside = True
+        if lo is not None:
+            c = bt.cmp(it, (node_keys, i), ([lo], 0))
+            inside = c > 0 or (c == 0 and lo_incl)
+        if inside and hi is not None:
+            c = bt.cmp(it, (node_keys, i), ([hi], 0))
+            inside = c < 0 or (c == 0 and hi_incl)
+        if inside:
+            out.append(Tup([Ref(node_keys, i), Ref(vals, i)]))
+    return Opaque('BTreeRange', DequeIter(out))
+
+
+@model('BTreeMap::iter', 'BTreeMap::values', 'BTreeMap::keys')
+def _(it, ci, a, d):
+    bt = deref(a[0]).data
+    items = []
+    for node_keys, i, vals in bt.locs():
+        if ci.name == 'iter':
+            items.append(Tup([Ref(node_keys, i), Ref(vals, i)]))
+        elif ci.name == 'values':
+            items.append(Ref(vals, i))
+        else:
+            items.append(Ref(node_keys, i))
+    return Opaque('BTreeIter', DequeIter(items))
+
+
+@model('BTreeMap::len')
+def _(it, ci, a, d):
+    return deref(a[0]).data.length
+
+
+@model('BTreeMap::is_empty')
+def _(it, ci, a, d):
+    return deref(a[0]).data.length == 0
+
+
+@model('BTreeMap::contains_key')
+def _(it, ci, a, d):
+    bt = deref(a[0]).data
+    k = a[1]
+    loc = (k.lst, k.idx) if type(k) is Ref else ([k], 0)
+    return bt.get(it, loc) is not None
+
+
+@model('BTreeMap::last_key_value', 'BTreeMap::first_key_value')
+def _(it, ci, a, d):
+    bt = deref(a[0]).data
+    ls = list(bt.locs())
+    if not ls:
+        return none()
+    node_keys, i, vals = ls[-1] if ci.name == 'last_key_value' else ls[0]
+    return some(Tup([Ref(node_keys, i), Ref(vals, i)]))
 
 
 # ---- Path / PathBuf
